@@ -150,6 +150,8 @@ func (set *TemplateSet) resolveTemplate(tpl *Template, path string) (name string
 func (set *TemplateSet) CleanCache(filenames ...string) {
 	set.templateCacheMutex.Lock()
 	defer set.templateCacheMutex.Unlock()
+	verifEv("CacheLock", 1, 0, 0, 0, "", "", set)
+	defer verifEv("CacheUnlock", 1, 0, 0, 0, "", "", set)
 	verifEv("CacheCleanCall", verifB(len(filenames) == 0), len(filenames), 0, 0, "", "", set)
 
 	if len(filenames) == 0 {
@@ -179,6 +181,8 @@ func (set *TemplateSet) FromCache(filename string) (*Template, error) {
 
 	set.templateCacheMutex.Lock()
 	defer set.templateCacheMutex.Unlock()
+	verifEv("CacheLock", 0, 0, 0, 0, filename, cleanedFilename, set)
+	defer verifEv("CacheUnlock", 0, 0, 0, 0, filename, cleanedFilename, set)
 
 	tpl, has := set.templateCache[cleanedFilename]
 
